@@ -1,1 +1,4 @@
-/-! Property theorems for C02 (stub: not built yet). -/
+import Usual.C02.Parse
+/-! Property theorems for C02 (being written). -/
+namespace UsualProps.C02
+end UsualProps.C02
